@@ -103,6 +103,7 @@ type op struct {
 	n          int  // opChoose: number of alternatives
 	local      bool // opChoose: commutes with everything, other threads are not offered
 	cost       int  // opChoose: deviation cost of every alternative > 0
+	order      bool // opChoose: the cost counts against OrderBound instead of FaultBound
 	what       string
 	join       []*thread
 
@@ -126,6 +127,7 @@ type thread struct {
 	// mayBlock: the scenario declares that this thread may stay blocked forever.
 	mayBlock bool
 	body     func()
+	spawnedByCode bool
 }
 
 type item struct {
@@ -182,6 +184,8 @@ type point struct {
 	n       int   // alternatives
 	costs   []int // deviation cost (preemptions) per alternative
 	fcosts  []int // fault cost per alternative
+	ocosts  []int // map-order deviation cost per alternative
+	ordBefore int
 	chosen  int
 	preBefore int
 	fltBefore int
@@ -205,6 +209,7 @@ type execution struct {
 
 	preempts int
 	faults   int
+	orders   int
 
 	opts     *Options
 	visited  map[uint64]uint16
@@ -230,8 +235,11 @@ var E *execution
 type Options struct {
 	// Bound on preemptions (switching away from a thread that could continue); <0: none.
 	PreemptBound int
-	// Bound on the summed cost of harness faults (ChooseCost); <0: none.
+	// Bound on the summed cost of harness faults (ChooseFault); <0: none.
 	FaultBound int
+	// Bound on the number of map iterations per execution that use a non-canonical order; <0: none.
+	// (The zero value means canonical order only - scenarios set -1 or a small number.)
+	OrderBound int
 	// Prune executions that reach a state already seen (see DESIGN.md 2.1).
 	Prune    bool
 	MaxSteps int
@@ -327,6 +335,7 @@ func (e *execution) newThread(name string, body func(), parent *thread) *thread 
 	}
 	if name == "" {
 		t.name = fmt.Sprintf("t%d", t.id)
+		t.spawnedByCode = true
 	}
 	for _, o := range e.threads {
 		if o.name == t.name {
@@ -608,7 +617,7 @@ func (e *execution) enabled() []transition {
 // choose picks among several enabled transitions: replay the prefix, else 0; record the point.
 func (e *execution) choose(trans []transition) (int, bool) {
 	i := len(e.points)
-	p := point{n: len(trans), preBefore: e.preempts, fltBefore: e.faults}
+	p := point{n: len(trans), preBefore: e.preempts, fltBefore: e.faults, ordBefore: e.orders}
 	lastEnabled := false
 	if e.last != nil && e.last.state == tParked {
 		for k := range trans {
@@ -620,6 +629,7 @@ func (e *execution) choose(trans []transition) (int, bool) {
 	}
 	p.costs = make([]int, len(trans))
 	p.fcosts = make([]int, len(trans))
+	p.ocosts = make([]int, len(trans))
 	for k := range trans {
 		tr := &trans[k]
 		if tr.timer != nil {
@@ -631,7 +641,11 @@ func (e *execution) choose(trans []transition) (int, bool) {
 		}
 		if tr.t.op.kind == opChoose {
 			if tr.alt > 0 {
-				p.fcosts[k] = tr.t.op.cost
+				if tr.t.op.order {
+					p.ocosts[k] = tr.t.op.cost
+				} else {
+					p.fcosts[k] = tr.t.op.cost
+				}
 			}
 			if tr.t.op.local {
 				continue
@@ -666,6 +680,9 @@ func (e *execution) choose(trans []transition) (int, bool) {
 			if e.opts.FaultBound >= 0 {
 				budget += uint16(e.faults * 64)
 			}
+			if e.opts.OrderBound >= 0 {
+				budget += uint16(e.orders * 1024)
+			}
 			if old, ok := e.visited[key]; ok && old <= budget {
 				e.outcome, e.msg = Pruned, ""
 				return 0, false
@@ -679,6 +696,7 @@ func (e *execution) choose(trans []transition) (int, bool) {
 	p.chosen = idx
 	e.preempts += p.costs[idx]
 	e.faults += p.fcosts[idx]
+	e.orders += p.ocosts[idx]
 	e.points = append(e.points, p)
 	return idx, true
 }
@@ -688,6 +706,9 @@ func (e *execution) affordable(p *point, k int) bool {
 		return false
 	}
 	if e.opts.FaultBound >= 0 && p.fltBefore+p.fcosts[k] > e.opts.FaultBound {
+		return false
+	}
+	if e.opts.OrderBound >= 0 && p.ordBefore+p.ocosts[k] > e.opts.OrderBound {
 		return false
 	}
 	return true
@@ -1016,6 +1037,16 @@ func ChooseFault(n, cost int, what string) int {
 	return o.chosen
 }
 
+// ChooseOrder is Choose for the order of a map iteration: alternatives > 0 count against Options.OrderBound.
+func ChooseOrder(n int, what string) int {
+	if n <= 1 {
+		return 0
+	}
+	o := &op{kind: opChoose, n: n, local: true, cost: 1, order: true, what: what}
+	E.yield(o)
+	return o.chosen
+}
+
 // Absorb folds a value the current thread observed from outside the shims into its history.
 func Absorb(v uint64) { E.cur.hist = mix(E.cur.hist, v) }
 
@@ -1054,4 +1085,16 @@ func (e *execution) newObjCID() uint64 {
 	c := mix(mix(t.cid, hObj), uint64(t.nobj))
 	t.nobj++
 	return c
+}
+
+// AliveUnnamed counts the unfinished goroutines that were started by the code under test (instrumented go
+// statements), as opposed to the harness's named threads.
+func AliveUnnamed() int {
+	n := 0
+	for _, t := range E.threads {
+		if t.state != tDone && t.spawnedByCode {
+			n++
+		}
+	}
+	return n
 }
